@@ -173,6 +173,35 @@ pub fn related_sets(rng: &mut Rng, n: usize, max_tiles: usize, mixed_comp: bool,
 		let z0 = rng.below(12) as u8;
 		(0..rng.range(1, 4) as u8).map(|i| z0 + i * rng.range(1, 2) as u8).collect()
 	};
+	if rng.chance(0.25) {
+		// "jigsaw": all sources scatter over the same small window inside one cell of the operators' 32 x 32 grid, each
+		// with its own density — irregular gaps whose bounding rectangles contain tiles another source filled already
+		let z = 6 + rng.below(10) as u8;
+		let (gx, gy) = (rng.below(1u64 << (z - 5)) as u32 * 32, rng.below(1u64 << (z - 5)) as u32 * 32);
+		let (w, h) = (rng.range(3, 14) as u32, rng.range(3, 14) as u32);
+		let (ox, oy) = (rng.below(32 - w as u64) as u32, rng.below(32 - h as u64) as u32);
+		let mut out = vec![];
+		for i in 0..n {
+			let comp = if mixed_comp { *rng.pick(&comp::ALL) } else { base_comp };
+			let p = rng.f64_range(0.2, 0.85);
+			let mut tiles = BTreeMap::new();
+			for dx in 0..w {
+				for dy in 0..h {
+					if rng.chance(p) {
+						let (x, y) = (gx + ox + dx, gy + oy + dy);
+						let raw = format!("s{i}:{z}/{x}/{y};").into_bytes();
+						tiles.insert((z, x, y), comp::compress(&raw, comp));
+					}
+				}
+			}
+			if tiles.is_empty() {
+				let (x, y) = (gx + ox, gy + oy);
+				tiles.insert((z, x, y), comp::compress(format!("s{i}:{z}/{x}/{y};").as_bytes(), comp));
+			}
+			out.push(TileSet { format, comp, tiles, tilejson: format!("{{\"tilejson\":\"3.0.0\",\"name\":\"s{i}\"}}"), shape: format!("jigsaw#{i}"), really_compressed: true });
+		}
+		return out;
+	}
 	let mut out = vec![];
 	// common anchor so that coverages overlap partly
 	let anchors: BTreeMap<u8, (u32, u32)> = levels.iter().map(|z| {
